@@ -13,6 +13,20 @@ The model FOLLOWS THE CODE.  Three layers:
      * proto-plus: `proto.Field/RepeatedField/MapField` → FieldDescriptorProto (`reconstruct`),
        quoted names resolved late as `<package>.<text>` (`plusResolve`), enum values sorted by
        number (`reconstructEnum`), the module manifest.
+Schema loading (gapic/schema/api.py `_ProtoBuilder`): `oneofName` (`_get_fields`' oneof lookup),
+`resolveField` (lookup at load time, then the orphan-field pass); `isProtoPlus`
+(`Address.is_proto_plus_type`, incl. the `proto-plus-deps` option) and `pythonImportPackage`
+(`Address.python_import`, `convert_to_versioned_package`, `subpackage`).
+
+NOT MODELLED (reached through T3 and the oracle only):
+  * `Proto.names` / `recursive_field_types` (the collision set): restated in harness/props/c02.py
+    (`file_collisions`) and compared with the real set on every case; the model takes it as input;
+  * `Proto.python_modules` (which import lines are printed, their order), `types/__init__.py.j2`
+    (the re-export list), docstrings, `raw_page` / `done` properties of _message.py.j2;
+  * `_pb_options` of enums (`allow_alias`): compared on the run-time descriptor by the oracle;
+  * message-level order of `oneof_decl` / nested types and the placement of classes (oracle: nesting);
+  * `api.naming` (module namespace / versioned module name: C11's model), sub-package `marshal=`;
+  * Jinja whitespace and everything about the printed text that Python does not observe.
 -/
 namespace GapicModel.Model.Types
 
@@ -325,6 +339,54 @@ def reconstructEnum (d : Name × List (Name × Int)) : Option EnumSpec :=
   match sortByNumber d.2 with
   | [] => none
   | (n, v) :: r => if v = 0 then some ⟨d.1, (n, v) :: r⟩ else none
+
+/-! ### Schema loading (gapic/schema/api.py) -/
+
+/-- `_get_fields`: `nth(oneofs.keys(), field_pb.oneof_index) if oneofs and field_pb.HasField("oneof_index")
+    else None` — the name of the oneof a field belongs to, however many members that oneof has
+    (proto3-optional fields get their synthetic oneof's name the same way). -/
+def oneofName (decls : List Name) (idx : Option Nat) : Option Name :=
+  match decls, idx with
+  | [], _ => none                    -- an empty dict is falsy
+  | _, none => none
+  | d :: ds, some i => (d :: ds)[i]?
+
+/-- a type known to the loader: full proto name, is it an enum -/
+abbrev Known := List (List Name × Bool)
+
+def lookupKnown (k : Known) (tn : List Name) : Option (List Name × Bool) := k.find? (·.1 == tn)
+
+/-- `Field.type` after loading.  At `_get_fields` time the type name is looked up among the types
+    loaded SO FAR (`loaded`: prior protos, earlier and nested messages of this file); a field left without
+    a type is an orphan and is looked up once more when the whole file (`fileAll`) is loaded. -/
+def resolveField (loaded fileAll : Known) (tn : List Name) : Option (List Name × Bool) :=
+  match lookupKnown loaded tn with
+  | some r => some r
+  | none => lookupKnown fileAll tn
+
+/-- `Address.is_proto_plus_type`: `proto_package.startswith(api_naming.proto_package) or proto_package in
+    proto_plus_deps` — a STRING prefix test on the dotted names. -/
+def isProtoPlus (apiPackage : Name) (deps : List Name) (pkg : List Name) : Bool :=
+  apiPackage.isPrefixOf (joinDots pkg) || decide (joinDots pkg ∈ deps)
+
+/-- `re.match(r"^v\d[^/]*$", s)` -/
+def isVersion (s : Name) : Bool :=
+  match s with
+  | 'v' :: d :: r => d.isDigit && !(r.contains '/')
+  | _ => false
+
+/-- `Address.convert_to_versioned_package`: `a.b.v1` ↦ `a.b_v1` -/
+def versionedPackage (pkg : List Name) : List Name :=
+  match pkg.reverse with
+  | v :: m :: rest => if isVersion v then (rest.reverse ++ [m ++ '_' :: v]) else pkg
+  | _ => pkg
+
+/-- `Address.python_import.package`.  `apiSegs` = `api_naming.proto_package.split(".")`,
+    `apiRoot` = `module_namespace + (versioned_module_name,)` (C11's model; an input here). -/
+def pythonImportPackage (apiPackage : Name) (apiSegs apiRoot : List Name) (deps : List Name) (a : Addr) : List Name :=
+  if apiPackage.isPrefixOf (joinDots a.package) then apiRoot ++ a.package.drop apiSegs.length ++ ["types".toList]
+  else if isProtoPlus apiPackage deps a.package then versionedPackage a.package ++ ["types".toList]
+  else a.package
 
 /-! ### Module manifest -/
 
